@@ -44,7 +44,8 @@ func qname(s string) string {
 type letBinding struct{ name, sort, def string }
 
 type scope struct {
-	lets []letBinding
+	lets   []letBinding
+	locals map[string]bool // the bound variable and the let names that depend on it
 }
 
 // Gen accumulates one SMT-LIB script: declarations, shared definitions and
@@ -60,6 +61,7 @@ type Gen struct {
 	consed   map[string]string
 	assumed  map[string]bool
 	boolDef  map[string]string
+	defOf    map[string]string
 }
 
 // Atom strips negations from a Boolean term name: it returns the underlying term and
@@ -77,6 +79,12 @@ func (g *Gen) Atom(t string) (string, bool) {
 			neg = !neg
 			continue
 		}
+		if n, ok := g.consed[t]; ok {
+			t = n // the canonical name of the term
+			if d, ok := g.boolDef[t]; ok && strings.HasPrefix(d, "(not ") {
+				continue
+			}
+		}
 		return t, neg
 	}
 }
@@ -91,7 +99,7 @@ type genItem struct {
 }
 
 func NewGen() *Gen {
-	return &Gen{declared: map[string]bool{}, byName: map[string]int{}, consed: map[string]string{}, assumed: map[string]bool{}, boolDef: map[string]string{}}
+	return &Gen{declared: map[string]bool{}, byName: map[string]int{}, consed: map[string]string{}, assumed: map[string]bool{}, boolDef: map[string]string{}, defOf: map[string]string{}}
 }
 
 func (g *Gen) add(kind, name, text string) {
@@ -108,7 +116,8 @@ func (g *Gen) Fresh(sort, def string) string {
 	if len(def) > 0 && (def[0] != '(' || isLiteral(def)) {
 		return def
 	}
-	if len(g.scopes) == 0 {
+	ground := len(g.scopes) == 0 || !g.mentionsLocal(def)
+	if ground {
 		// hash-consing: one name per distinct term
 		if n, ok := g.consed[def]; ok {
 			return n
@@ -116,12 +125,17 @@ func (g *Gen) Fresh(sort, def string) string {
 	}
 	g.n++
 	name := fmt.Sprintf("x%d", g.n)
-	if len(g.scopes) > 0 {
+	if !ground {
+		// depends on a bound variable: a let binding inside the innermost quantifier that
+		// binds something it mentions (ground subterms are hoisted to the top level, which
+		// keeps quantifier bodies small and their patterns simple)
 		s := g.scopes[len(g.scopes)-1]
 		s.lets = append(s.lets, letBinding{name, sort, def})
+		s.locals[name] = true
 		return name
 	}
 	g.consed[def] = name
+	g.defOf[name] = def
 	if sort == SortBool {
 		g.boolDef[name] = def
 	}
@@ -184,7 +198,46 @@ func (g *Gen) Assume(term string) {
 
 func (g *Gen) InQuant() bool { return len(g.scopes) > 0 }
 
-func (g *Gen) PushScope() { g.scopes = append(g.scopes, &scope{}) }
+func (g *Gen) PushScope(bound ...string) {
+	sc := &scope{locals: map[string]bool{}}
+	for _, b := range bound {
+		sc.locals[b] = true
+	}
+	g.scopes = append(g.scopes, sc)
+}
+
+// mentionsLocal reports whether the term mentions a bound variable or a let name of an
+// open quantifier scope.
+func (g *Gen) mentionsLocal(def string) bool {
+	n := len(def)
+	for i := 0; i < n; {
+		c := def[i]
+		if c == '|' {
+			j := i + 1
+			for j < n && def[j] != '|' {
+				j++
+			}
+			i = j + 1
+			continue
+		}
+		if c == '(' || c == ')' || c == ' ' {
+			i++
+			continue
+		}
+		j := i
+		for j < n && def[j] != '(' && def[j] != ')' && def[j] != ' ' {
+			j++
+		}
+		tok := def[i:j]
+		for _, sc := range g.scopes {
+			if sc.locals[tok] {
+				return true
+			}
+		}
+		i = j
+	}
+	return false
+}
 
 // PopScope closes the innermost scope and wraps body in its let bindings.
 func (g *Gen) PopScope(body string) string {
@@ -257,7 +310,7 @@ func (g *Gen) symbolsIn(text string, f func(int)) {
 // obligation harder to discharge, never easier, so slicing is sound for proofs.
 type Slicer struct {
 	g         *Gen
-	asDeps    [][]int       // per assumption: items it mentions directly
+	asDeps    [][]int        // per assumption: items it mentions directly
 	asDecl    []map[int]bool // per assumption: declared symbols in its transitive closure
 	declIndex map[int][]int  // declared item -> assumptions whose closure contains it
 }
